@@ -186,6 +186,10 @@ class ExecBase:
     def set_local(self, st, name, val, fresh=False):
         want = self.contract.locals.get(name)
         if want is not None:
+            if val.ty.kind == "opt" and want.kind not in ("opt", "opaque", "none"):
+                self.oblige("safe", st, z3.Not(V.opt_isnone(val)), f"value assigned to `{name}` (declared {want}) is not None", self.cur_line)
+                st.assume(z3.Not(V.opt_isnone(val)))
+                val = V.opt_val(val)
             val = O.coerce(val, want)
         elif O.is_strlit(val):
             val = O.coerce(val, T.OPAQUE) if self.contract.strings == "opaque" else O.coerce(val, T.STR)
